@@ -208,8 +208,20 @@ def run(ctx: Any, prog: Program) -> None:
     last = ca.body[-1]
     ok = isinstance(last, ast.Raise) and isinstance(last.exc, ast.Call) and dotted(last.exc.func) == 'RecursionError'
     ctx.check('C17.N2', ok, ins, last, 'after exhausting recur_limit passes collapse_all must raise RecursionError', text='RecursionError after the loop')
+    # names made up for unnamed instances are unique over the whole run: the number in `InstanceAuto<n>` comes from a counter that starts
+    # before the pass loop and only grows.  Numbering inside a pass (enumerate over this pass's unnamed instances) starts at 1 again in the
+    # next pass, so an unnamed instance nested in a template gets the name of an unnamed top-level one and their entities share names.
+    autos = [js for js in ast.walk(ca) if isinstance(js, ast.JoinedStr) and any(isinstance(v, ast.Constant) and 'InstanceAuto' in str(v.value) for v in js.values)]
+    ctx.shape('C17.N2', len(autos) == 1, ins, ca, f'{len(autos)} `InstanceAuto<n>` name templates in collapse_all (1 confirmed by hand)', text='auto name template')
+    for js in autos:
+        nums = [v.value.id for v in js.values if isinstance(v, ast.FormattedValue) and isinstance(v.value, ast.Name)]
+        for nm_ in nums:
+            init_outside = any(isinstance(st_, (ast.Assign, ast.AnnAssign)) and any(dotted(t) == nm_ for t in (st_.targets if isinstance(st_, ast.Assign) else [st_.target])) for st_ in ca.body)
+            per_pass = any(isinstance(l_, ast.For) and any(isinstance(x, ast.Name) and x.id == nm_ for x in ast.walk(l_.target)) for l_ in ast.walk(ca))
+            ctx.check('C17.N2', init_outside and not per_pass, ins, js, f'the number in `{U(js)}` is `{nm_}`, ' + ('a loop variable that starts again in every pass' if per_pass else 'not a counter initialised before the pass loop')
+                      + ': an unnamed instance inside a template (collapsed in a later pass) gets the same generated name as an unnamed top-level instance, and the entities of the two collide', text='auto names numbered over the whole run')
     if outer:
-        inner = [n for n in ast.walk(outer[0]) if isinstance(n, ast.For) and n is not outer[0]]
+        inner = [n for n in ast.walk(outer[0]) if isinstance(n, ast.For) and n is not outer[0] and any(isinstance(c, ast.Call) and dotted(c.func) == 'collapse_one' for c in ast.walk(n))]
         if len(inner) != 1:
             raise AnalysisError('collapse_all: expected one inner loop over the instance entities')
         il = inner[0]
@@ -785,6 +797,7 @@ def n6_substitute(ctx: Any, vm: Any) -> None:
 
 
 MUTANTS = [
+    {'id': 'auto_instance_names_numbered_per_pass', 'file': 'instancing.py', 'find': "            if not inst.name:\n                auto_inst_count += 1\n                inst.name = f'InstanceAuto{auto_inst_count}'\n", 'replace': "", 'extra': [{'file': 'instancing.py', 'find': "        for inst_ent in instances:\n            inst = Instance.from_entity(inst_ent)", 'replace': "        for auto_ind, unnamed_ent in enumerate([e for e in instances if not e['targetname']], start=1):\n            unnamed_ent['targetname'] = f'InstanceAuto{auto_ind}'\n        for inst_ent in instances:\n            inst = Instance.from_entity(inst_ent)"}], 'expect': 'C17.N2'},
     {'id': 'side_localise_inline_v_offset_by_u_scale', 'file': 'vmf.py', 'find': "        self.uaxis = self.uaxis.localise(origin, orient)\n        self.vaxis = self.vaxis.localise(origin, orient)\n", 'replace': "        u_axis = self.uaxis.vec() @ orient\n        v_axis = self.vaxis.vec() @ orient\n        self.uaxis.x, self.uaxis.y, self.uaxis.z = u_axis\n        self.vaxis.x, self.vaxis.y, self.vaxis.z = v_axis\n        self.uaxis.offset -= Vec.dot(u_axis, origin) / self.uaxis.scale\n        self.vaxis.offset -= Vec.dot(v_axis, origin) / self.uaxis.scale\n", 'expect': 'C17.N3'},
     {'id': 'ok_side_localise_inline', 'file': 'vmf.py', 'find': "        self.uaxis = self.uaxis.localise(origin, orient)\n        self.vaxis = self.vaxis.localise(origin, orient)\n", 'replace': "        u_axis = self.uaxis.vec() @ orient\n        v_axis = self.vaxis.vec() @ orient\n        self.uaxis.x, self.uaxis.y, self.uaxis.z = u_axis\n        self.vaxis.x, self.vaxis.y, self.vaxis.z = v_axis\n        self.uaxis.offset -= Vec.dot(u_axis, origin) / self.uaxis.scale\n        self.vaxis.offset -= Vec.dot(v_axis, origin) / self.vaxis.scale\n", 'expect': None, 'refuse_ok': True, 'note': 'negative control: the axis update written out in place with the right scale'},
     {'id': 'variables_expanded_up_front_and_again', 'file': 'instancing.py', 'find': "        angles = Angle.from_str(inst.fixup.substitute(new_ent['angles'], ''))\n", 'replace': "        for key, value in new_ent.items():\n            if '$' in value and key.casefold() not in ('classname', 'hammerid', 'spawnflags'):\n                new_ent[key] = inst.fixup.substitute(value, '')\n        angles = Angle.from_str(new_ent['angles'])\n", 'extra': [{'file': 'instancing.py', 'find': "            angles.pitch = srctools.conv_float(inst.fixup.substitute(new_ent['pitch'], ''))", 'replace': "            angles.pitch = srctools.conv_float(new_ent['pitch'])"}, {'file': 'instancing.py', 'find': "            angles.yaw = srctools.conv_float(inst.fixup.substitute(new_ent['yaw'], ''))", 'replace': "            angles.yaw = srctools.conv_float(new_ent['yaw'])"}], 'expect': 'C17.N8'},
